@@ -57,3 +57,4 @@ mut "voluntary feature ends the selection loop" 's/| RSNone => if req then Ret (
 mut "component: <handshake/> accepted without reading its end" 's/| Open KHandshake => guard id ;;; skip n 0 ;;;/| Open KHandshake => guard id ;;;/'
 mut "bind result accepted without reading the whole element" 's/| Open (KIq ok) => skip n 0 ;;; guard ok ;;; Ret (st_Ready, RSNone)/| Open (KIq ok) => guard ok ;;; Ret (st_Ready, RSNone)/'
 mut "ws: <open/> accepted without reading its end" 's/(if ws then skip n'"'"' 0 else Ret tt) ;;;/Ret tt ;;;/'
+mut "starttls client: <proceed> accepted without reading its end" 's/| Open (KSel _ EProceed) => skip n 0 ;;; Ret (st_Secure, RSTls)/| Open (KSel _ EProceed) => Ret (st_Secure, RSTls)/'
